@@ -9,7 +9,8 @@ A "valid KISS answer" is a matching answer (`Matching`: request pending, within 
 
 Property sentence ↔ theorem
   "After a valid RATE answer a source never polls faster than it just did"
-        ↔ `rate_never_faster` (+ `next_poll_ge_remote_min`)
+        ↔ `rate_lengthens` (one answer), `never_faster_after_rate` (every later request of the history),
+          `remote_min_monotone` (the floor never decreases along any history), `next_poll_ge_remote_min`
   "absent a longer interval of its own, each RATE answer lengthens its polling interval by at least one step
    until the configured maximum"          ↔ `rate_lengthens`
   "A valid DENY or RSTR answer demobilises an NTS source immediately but only marks an unauthenticated source,
@@ -299,6 +300,123 @@ theorem inc_no_overflow (ops : List Op) (s : State) (hinv : Inv s) (hmax : s.cfg
     obtain ⟨h1, h2⟩ := inv_step s op hinv hmax (hops op (by simp))
     exact ⟨h1, ih _ h1 (by rw [h2]; exact hmax) (fun o ho => hops o (by simp [ho]))⟩
 
+/-! #### monotonicity of the server-requested floor over histories -/
+
+/-- invariant: while a request is pending, the floor is not above the poll it was sent with, or not above the
+    configured maximum (a request is always sent with `max desired floor`; RATE keeps the disjunction) -/
+def J (s : State) : Prop :=
+  s.pending ≠ none → (s.remoteMinPoll ≤ s.lastPoll ∨ s.remoteMinPoll ≤ s.cfg.limits.max)
+
+theorem J_init (cfg : Cfg) (pr : Proto) (nts : Option Stash) : J (SourceSM.init cfg pr nts) := by
+  intro h; exact absurd rfl h
+
+/-- one op (aborting ones included) never lowers `remote_min_poll_interval`, and keeps `J` and the configuration -/
+theorem step_remote_min (s : State) (op : Op) (hJ : J s) :
+    s.remoteMinPoll ≤ (step s op).1.remoteMinPoll ∧ J (step s op).1 ∧ (step s op).1.cfg = s.cfg := by
+  cases op with
+  | timer now d o u t =>
+    simp only [step]
+    rcases timer_cases s now d o u t with ⟨_, e⟩ | ⟨_, ⟨hn, e⟩ | ⟨st, st', hn, _, e⟩ | ⟨st, st', hn, _, e⟩ |
+        ⟨st, st', c, n, hn, _, ⟨_, e⟩ | ⟨_, e⟩⟩⟩
+    all_goals (rw [e])
+    · exact ⟨Int.le_refl _, hJ, rfl⟩
+    · exact ⟨Int.le_refl _, fun _ => Or.inl (by simp only [timerSent, timerBase]; omega), rfl⟩
+    · exact ⟨Int.le_refl _, hJ, rfl⟩
+    · exact ⟨Int.le_refl _, hJ, rfl⟩
+    · exact ⟨Int.le_refl _, fun _ => Or.inl (by simp only [timerSent, timerBase]; omega), rfl⟩
+    · exact ⟨Int.le_refl _, fun _ => Or.inl (by simp only [timerSent, timerBase]; omega), rfl⟩
+  | incoming now parsed a b bl =>
+    simp only [step, handleIncoming]
+    rcases incoming_cases true s now parsed a b bl with e | ⟨p, id, dl, hp, hpend, hw, hv, hval, hc⟩
+    · rw [e]; exact ⟨Int.le_refl _, hJ, rfl⟩
+    · have hJ' := hJ (by rw [hpend]; simp)
+      rcases hc with ⟨_, _, e⟩ | ⟨_, _, ⟨_, e⟩ | ⟨rr, hrr, e⟩⟩ | ⟨_, _, _, ⟨_, e⟩ | ⟨_, e⟩⟩ | ⟨_, _, _, e⟩
+      · rw [e]; exact ⟨Int.le_refl _, hJ, rfl⟩
+      · rw [e]; exact ⟨Int.le_refl _, hJ, rfl⟩
+      · rw [e]
+        unfold pollInc at hrr
+        split at hrr
+        · cases hrr
+        · injection hrr with hrr; subst hrr
+          refine ⟨?_, fun _ => ?_, rfl⟩
+          · simp only; rcases hJ' with h | h <;> omega
+          · simp only
+            by_cases hc : min (s.remoteMinPoll + 1) s.cfg.limits.max ≤ s.lastPoll
+            · left; omega
+            · right; omega
+      · rw [e]; exact ⟨Int.le_refl _, hJ, rfl⟩
+      · rw [e]; exact ⟨Int.le_refl _, hJ, rfl⟩
+      · rw [e]
+        have hf := processMessage_fields { s with proto := protoOnValid s.proto p.isUpgrade } p a b bl
+        have hpe := processMessage_pending { s with proto := protoOnValid s.proto p.isUpgrade } p a b bl
+        simp only at hf
+        refine ⟨?_, fun h => absurd hpe h, hf.2.2.2.1⟩
+        rw [hf.2.2.2.2.2.2.2.2.2]
+        split <;> omega
+
+theorem run_append (s : State) (pre post : List Op) :
+    (run s (pre ++ post)).1 = (run (run s pre).1 post).1 := by
+  induction pre generalizing s with
+  | nil => rfl
+  | cons op pre ih => simp only [List.cons_append, run]; exact ih _
+
+theorem run_remote_min (ops : List Op) (s : State) (hJ : J s) :
+    s.remoteMinPoll ≤ (run s ops).1.remoteMinPoll ∧ J (run s ops).1 ∧ (run s ops).1.cfg = s.cfg := by
+  induction ops generalizing s with
+  | nil => exact ⟨Int.le_refl _, hJ, rfl⟩
+  | cons op ops ih =>
+    obtain ⟨h1, h2, h3⟩ := step_remote_min s op hJ
+    obtain ⟨k1, k2, k3⟩ := ih (step s op).1 h2
+    simp only [run]
+    exact ⟨Int.le_trans h1 k1, k2, by rw [k3, h3]⟩
+
+/-- **C09.remote_min_monotone** — along any op list from a new source (or any state satisfying `J`), whatever the
+    traffic, `remote_min_poll_interval` never decreases: its value after any prefix of the history is at most its
+    value after any longer prefix. -/
+theorem remote_min_monotone (s : State) (hJ : J s) (pre post : List Op) :
+    (run s pre).1.remoteMinPoll ≤ (run s (pre ++ post)).1.remoteMinPoll := by
+  rw [run_append]
+  exact (run_remote_min post _ (run_remote_min pre s hJ).2.1).1
+
+/-- every request sent later in a history polls no faster than the floor at the start of that history -/
+theorem sends_ge_remote_min (post : List Op) (t : State) (hJ : J t) :
+    ∀ o ∈ observations t post, ∀ i, o = .timer (.send i) → t.remoteMinPoll ≤ i.poll := by
+  induction post generalizing t with
+  | nil => simp [observations, run]
+  | cons op post ih =>
+    simp only [observations, run, List.map_cons, List.mem_cons, forall_eq_or_imp]
+    obtain ⟨h1, h2, _⟩ := step_remote_min t op hJ
+    constructor
+    · intro i hi
+      cases op with
+      | incoming => simp [step] at hi
+      | timer now d o u tn =>
+        simp only [step] at hi
+        have hi' : (handleTimer t now d o u tn).2 = .send i := by injection hi
+        exact (next_poll_ge_remote_min t now d o u tn i _ rfl hi').1
+    · intro o ho i hi
+      exact Int.le_trans h1 (ih _ h2 o ho i hi)
+
+/-- **C09.never_faster_after_rate** — history form of "after a valid RATE answer a source never polls faster than
+    it just did": if a source (in a state reachable from a new source, `J`) that polled with exponent `last_poll`
+    receives a valid RATE answer, then EVERY request it sends afterwards — whatever else arrives in between and
+    whatever the controller desires — has a poll exponent of at least `last_poll`. -/
+theorem never_faster_after_rate (s : State) (hJ : J s) (now : Nat) (p : Pkt) (id : ReqId) (dl : Nat) (a b : Nat)
+    (bl : Option Bool) (hm : Matching s now p id dl) (hr : IsRate s p) (hno : s.remoteMinPoll < 127)
+    (post : List Op) :
+    ∀ o ∈ observations (handleIncoming s now (some p) a b bl).1 post, ∀ i, o = .timer (.send i) →
+      s.lastPoll ≤ i.poll := by
+  intro o ho i hi
+  obtain ⟨_, _, hge, _⟩ := rate_lengthens s now p id dl a b bl hm hr hno _ rfl
+  have hJ' : J (handleIncoming s now (some p) a b bl).1 :=
+    (step_remote_min s (.incoming now (some p) a b bl) hJ).2.1
+  exact Int.le_trans hge (sends_ge_remote_min post _ hJ' o ho i hi)
+
+/-- `J` holds in every state of every history of a new source -/
+theorem J_reachable (cfg : Cfg) (pr : Proto) (nts : Option Stash) (ops : List Op) :
+    J (run (SourceSM.init cfg pr nts) ops).1 :=
+  (run_remote_min ops _ (J_init cfg pr nts)).2.1
+
 /-! #### non-vacuity -/
 
 def cfg0 : Cfg := ⟨⟨4, 10⟩, 16, [], 5⟩
@@ -333,3 +451,5 @@ end NtpVerif.C09
 #print axioms NtpVerif.C09.ntsn_unknown_inert
 #print axioms NtpVerif.C09.rate_no_overflow
 #print axioms NtpVerif.C09.inc_no_overflow
+#print axioms NtpVerif.C09.remote_min_monotone
+#print axioms NtpVerif.C09.never_faster_after_rate
